@@ -30,21 +30,26 @@ private theorem strict_segs (p : Path) : strictList (p.map Seg.toJ) = true := by
   obtain ⟨s, _, rfl⟩ := hj
   cases s <;> simp [Seg.toJ, strict, J.ofNat]
 
+/-- the error is a `GraphQLSyntaxError` (the only class whose `to_dict` spells the column key `syntaxColKey`) -/
+def _root_.PyGql.Response.Err.isSyntax : Err → Bool
+  | .syntax _ _ => true
+  | _ => false
+
 /-! #### locations -/
 
-private theorem locationOk_locJ (k : String) (hk : k = "column" ∨ k = syntaxColKey) (text : Text) (pos : Nat) (lc : Nat × Nat)
-    (h : indexToLoc text pos = some lc) : locationOk syntaxColKey text (locJ "line" k lc) = true := by
+private theorem locationOk_locJ (K : String) (k : String) (hk : k = "column" ∨ k = K) (text : Text) (pos : Nat) (lc : Nat × Nat)
+    (h : indexToLoc text pos = some lc) : locationOk K text (locJ "line" k lc) = true := by
   have hpos : pos ≤ text.length := (index_to_loc_total_iff text pos).mp (by simp [h])
   obtain ⟨l, c, h2, hin⟩ := loc_bounds text pos hpos
   rw [h] at h2
   cases h2
-  have hk' : (k == "column" || k == syntaxColKey) = true := by
+  have hk' : (k == "column" || k == K) = true := by
     rcases hk with rfl | rfl <;> simp
   simp [locJ, locationOk, J.ofNat, hk', hin]
 
-private theorem mapM_locs (text : Text) : ∀ (ps : List Nat) (locs : List (Nat × Nat)),
+private theorem mapM_locs (K : String) (text : Text) : ∀ (ps : List Nat) (locs : List (Nat × Nat)),
     ps.mapM (indexToLoc text) = some locs →
-    ∀ j ∈ locs.map (locJ locatedLineKey locatedColKey), locationOk syntaxColKey text j = true ∧ strict j = true
+    ∀ j ∈ locs.map (locJ locatedLineKey locatedColKey), locationOk K text j = true ∧ strict j = true
   | [], locs, h => by simp at h; subst h; simp
   | p :: ps, locs, h => by
     simp only [List.mapM_cons, Option.bind_eq_bind] at h
@@ -59,8 +64,8 @@ private theorem mapM_locs (text : Text) : ∀ (ps : List Nat) (locs : List (Nat 
         intro j hj
         simp only [List.map_cons, List.mem_cons] at hj
         rcases hj with rfl | hj
-        · exact ⟨locationOk_locJ locatedColKey (Or.inl rfl) text p lc h1, strict_locJ _ _ _⟩
-        · exact mapM_locs text ps rest h2 j hj
+        · exact ⟨locationOk_locJ K locatedColKey (Or.inl rfl) text p lc h1, strict_locJ _ _ _⟩
+        · exact mapM_locs K text ps rest h2 j hj
 
 /-! #### one error -/
 
@@ -81,13 +86,13 @@ private theorem mapM_total (text : Text) : ∀ (ps : List Nat), (∀ n ∈ ps, n
     obtain ⟨rest, h2⟩ := mapM_total text ps (fun n hn => h n (by simp [hn]))
     exact ⟨(l, c) :: rest, by simp [h1, h2]⟩
 
-private theorem located_ok (text : Text) (msg : String) (ns : List (Option Nat)) (path : Option Path)
+private theorem located_ok (K : String) (text : Text) (msg : String) (ns : List (Option Nat)) (path : Option Path)
     (h : ∀ n ∈ ns.filterMap id, n ≤ text.length) :
     ∃ kvs, locatedDict text msg ns path = some kvs ∧
-      errorOk syntaxColKey text (.obj kvs) = true ∧ strictKvs kvs = true ∧
+      errorOk K text (.obj kvs) = true ∧ strictKvs kvs = true ∧
       kvs.head? = some ("message", .str msg) ∧ (kvs.all fun kv => kv.1 != "extensions") = true := by
   obtain ⟨locs, hl⟩ := mapM_total text _ h
-  have hlocs := mapM_locs text _ locs hl
+  have hlocs := mapM_locs K text _ locs hl
   unfold locatedDict
   simp only [hl, locatedKeepsEmptyMessage, Bool.or_true, if_true]
   refine ⟨_, rfl, ?_⟩
@@ -109,7 +114,7 @@ private theorem located_ok (text : Text) (msg : String) (ns : List (Option Nat))
         simp only [List.map_cons] at this hs
         simp [errorOk, keysAmong, J.get?, strictKvs, strict, this, hs]
   | cons lc rest =>
-    have h1 : ((lc :: rest).map (locJ locatedLineKey locatedColKey)).all (locationOk syntaxColKey text) = true := by
+    have h1 : ((lc :: rest).map (locJ locatedLineKey locatedColKey)).all (locationOk K text) = true := by
       simp only [List.all_eq_true]
       exact fun j hj => (hlocs j hj).1
     have h2 : strictList ((lc :: rest).map (locJ locatedLineKey locatedColKey)) = true :=
@@ -149,12 +154,14 @@ private theorem get_ext_append (kvs : List (String × J)) (e : J)
   simp [this, List.find?]
 
 /-- `to_dict()` of an admissible error is defined, is a well-formed error map and strict JSON -/
-private theorem toDict_ok (text : Text) (e : Err) (h : ErrOk text e) :
-    ∃ j, e.toDict text = some j ∧ errorOk syntaxColKey text j = true ∧ strict j = true := by
+private theorem toDict_ok (K : String) (text : Text) (e : Err) (h : ErrOk text e) (hK : e.isSyntax = true → K = syntaxColKey) :
+    ∃ j, e.toDict text = some j ∧ errorOk K text j = true ∧ strict j = true := by
   cases e with
   | «syntax» msg p =>
+    have hK' := hK rfl
+    subst hK'
     obtain ⟨l, c, h1, _⟩ := loc_bounds text p h
-    have hl := locationOk_locJ syntaxColKey (Or.inr rfl) text p (l, c) h1
+    have hl := locationOk_locJ syntaxColKey syntaxColKey (Or.inr rfl) text p (l, c) h1
     have ht : Err.toDict text (.syntax msg p) =
         some (.obj [("message", .str msg), ("locations", .arr [locJ syntaxLineKey syntaxColKey (l, c)])]) := by
       simp [Err.toDict, h1]
@@ -164,7 +171,7 @@ private theorem toDict_ok (text : Text) (e : Err) (h : ErrOk text e) :
       simp [errorOk, keysAmong, J.get?, hl]
     · simp [strict, strictKvs, strictList, locJ, J.ofNat]
   | located msg ns path =>
-    obtain ⟨kvs, h1, h2, h3, h4, _⟩ := located_ok text msg ns path h
+    obtain ⟨kvs, h1, h2, h3, h4, _⟩ := located_ok K text msg ns path h
     refine ⟨.obj kvs, by simp [Err.toDict, h1], h2, ?_⟩
     cases kvs with
     | nil => simp at h4
@@ -172,7 +179,7 @@ private theorem toDict_ok (text : Text) (e : Err) (h : ErrOk text e) :
       simp at h4; subst h4
       simpa [strict] using h3
   | resolver msg ns path ext =>
-    obtain ⟨kvs, h1, h2, h3, h4, h5⟩ := located_ok text msg ns path h.1
+    obtain ⟨kvs, h1, h2, h3, h4, h5⟩ := located_ok K text msg ns path h.1
     cases kvs with
     | nil => simp at h4
     | cons kv rest =>
@@ -217,13 +224,14 @@ private theorem toDict_ok (text : Text) (e : Err) (h : ErrOk text e) :
   | execution msg =>
     exact ⟨_, rfl, by simp [errorOk, keysAmong, J.get?], by simp [strict, strictKvs]⟩
 
-private theorem mapM_toDict_ok (text : Text) : ∀ (es : List Err), (∀ e ∈ es, ErrOk text e) →
+private theorem mapM_toDict_ok (K : String) (text : Text) : ∀ (es : List Err), (∀ e ∈ es, ErrOk text e) →
+    (∀ e ∈ es, e.isSyntax = true → K = syntaxColKey) →
     ∃ js, es.mapM (Err.toDict text) = some js ∧ js.length = es.length ∧
-      ∀ j ∈ js, errorOk syntaxColKey text j = true ∧ strict j = true
-  | [], _ => ⟨[], by simp⟩
-  | e :: es, h => by
-    obtain ⟨j, h1, h2⟩ := toDict_ok text e (h e (by simp))
-    obtain ⟨js, h3, h4, h5⟩ := mapM_toDict_ok text es (fun x hx => h x (by simp [hx]))
+      ∀ j ∈ js, errorOk K text j = true ∧ strict j = true
+  | [], _, _ => ⟨[], by simp⟩
+  | e :: es, h, hK => by
+    obtain ⟨j, h1, h2⟩ := toDict_ok K text e (h e (by simp)) (hK e (by simp))
+    obtain ⟨js, h3, h4, h5⟩ := mapM_toDict_ok K text es (fun x hx => h x (by simp [hx])) (fun x hx => hK x (by simp [hx]))
     refine ⟨j :: js, by simp [h1, h3], by simp [h4], ?_⟩
     intro x hx
     simp only [List.mem_cons] at hx
@@ -231,15 +239,16 @@ private theorem mapM_toDict_ok (text : Text) : ∀ (es : List Err), (∀ e ∈ e
     · exact h2
     · exact h5 x hx
 
-/-- a `GraphQLResult` (without result extensions) whose errors are admissible, whose data is strict
-    JSON and which has data whenever it has no errors, renders to a well-formed response -/
-theorem result_wellformed (text : Text) (r : Result)
+/-- `result_wellformed` with the accepted extra spelling `K` of the column key as a parameter: `K` only has to be the syntax
+    error's key when the result actually carries a syntax error — with `K := "column"` this is section 7.1 as written -/
+theorem result_wellformed_key (K : String) (text : Text) (r : Result)
     (herr : ∀ e ∈ r.errors, ErrOk text e)
+    (hK : ∀ e ∈ r.errors, e.isSyntax = true → K = syntaxColKey)
     (hdata : ∀ d, r.data = some d → strict d = true)
     (hsome : r.errors = [] → r.data.isSome = true)
     (hext : r.extensions = []) :
-    ∃ j, r.response text = some j ∧ WellFormedK syntaxColKey text j := by
-  obtain ⟨js, h1, h2, h3⟩ := mapM_toDict_ok text r.errors herr
+    ∃ j, r.response text = some j ∧ WellFormedK K text j := by
+  obtain ⟨js, h1, h2, h3⟩ := mapM_toDict_ok K text r.errors herr hK
   unfold Result.response WellFormedK
   simp only [h1, hext, List.isEmpty_nil, if_true, List.append_nil]
   refine ⟨_, rfl, ?_⟩
@@ -255,7 +264,7 @@ theorem result_wellformed (text : Text) (r : Result)
       have := hdata d hd
       simp [wellFormedB, keysAmong, J.get?, strict, strictKvs, this]
   | cons j0 js =>
-    have hall : (j0 :: js).all (errorOk syntaxColKey text) = true := by
+    have hall : (j0 :: js).all (errorOk K text) = true := by
       simp only [List.all_eq_true]; exact fun j hj => (h3 j hj).1
     have hstr : strictList (j0 :: js) = true := strictList_of_forall _ (fun j hj => (h3 j hj).2)
     cases hd : r.data with
@@ -263,6 +272,16 @@ theorem result_wellformed (text : Text) (r : Result)
     | some d =>
       have := hdata d hd
       simp [wellFormedB, keysAmong, J.get?, strict, strictKvs, hall, hstr, this]
+
+/-- a `GraphQLResult` (without result extensions) whose errors are admissible, whose data is strict
+    JSON and which has data whenever it has no errors, renders to a well-formed response -/
+theorem result_wellformed (text : Text) (r : Result)
+    (herr : ∀ e ∈ r.errors, ErrOk text e)
+    (hdata : ∀ d, r.data = some d → strict d = true)
+    (hsome : r.errors = [] → r.data.isSome = true)
+    (hext : r.extensions = []) :
+    ∃ j, r.response text = some j ∧ WellFormedK syntaxColKey text j :=
+  result_wellformed_key syntaxColKey text r herr (fun _ _ _ => rfl) hdata hsome hext
 
 /-! ### the staged statement -/
 
@@ -282,17 +301,11 @@ def FullStatement : Prop :=
   ∀ (text : Text) (s : Stages), StagesOk text s →
     ∃ j, (processQuery s).response text = some j ∧ WellFormed text j
 
-/-- **response_wellformed (partial: modulo finding X1).** For every text and every admissible
-    outcome of the five stages — syntax error, validation errors, no/ambiguous operation, variable
-    coercion errors, execution with field errors — `process_graphql_query(...).response()` is defined
-    (no exception out of any `to_dict`) and is a well-formed, strict-JSON response whose locations lie
-    inside the submitted text; the ONLY departure from section 7.1 is the spelling
-    `Generated.ResponseKeys.syntaxColKey` of the column key of syntax-error locations (a parameter
-    re-extracted from `exc.py` on every run; `syntax_column_key_is_misspelt`). What is missing for
-    `FullStatement`: that key being `"column"` — pinned by tests/test_graphql.py. -/
-theorem response_wellformed_partial (text : Text) (s : Stages) (h : StagesOk text s) :
-    ∃ j, (processQuery s).response text = some j ∧ WellFormedK syntaxColKey text j := by
-  apply result_wellformed
+/-- the four facts about `processQuery s` that make its rendering well-formed, for every admissible stage outcome -/
+private theorem stagesOk_facts (text : Text) (s : Stages) (h : StagesOk text s) {P : Prop}
+    (k : (∀ e ∈ (processQuery s).errors, ErrOk text e) → (∀ d, (processQuery s).data = some d → strict d = true) →
+      ((processQuery s).errors = [] → (processQuery s).data.isSome = true) → (processQuery s).extensions = [] → P) : P := by
+  apply k
   · intro e he
     unfold processQuery abort at he
     cases hp : s.parse with
@@ -352,6 +365,18 @@ theorem response_wellformed_partial (text : Text) (s : Stages) (h : StagesOk tex
     repeat' split
     all_goals rfl
 
+/-- **response_wellformed (partial: modulo finding X1).** For every text and every admissible
+    outcome of the five stages — syntax error, validation errors, no/ambiguous operation, variable
+    coercion errors, execution with field errors — `process_graphql_query(...).response()` is defined
+    (no exception out of any `to_dict`) and is a well-formed, strict-JSON response whose locations lie
+    inside the submitted text; the ONLY departure from section 7.1 is the spelling
+    `Generated.ResponseKeys.syntaxColKey` of the column key of syntax-error locations (a parameter
+    re-extracted from `exc.py` on every run; `syntax_column_key_is_misspelt`). What is missing for
+    `FullStatement`: that key being `"column"` — pinned by tests/test_graphql.py. -/
+theorem response_wellformed_partial (text : Text) (s : Stages) (h : StagesOk text s) :
+    ∃ j, (processQuery s).response text = some j ∧ WellFormedK syntaxColKey text j :=
+  stagesOk_facts text s h (fun h1 h2 h3 h4 => result_wellformed text _ h1 h2 h3 h4)
+
 /-- non-vacuity: a two-line request whose validation failed at offset 7 (line 2, column 3) is an
     admissible stage outcome, and so is an executed one with a field error carrying extensions -/
 example : StagesOk [123, 32, 97, 13, 10, 32, 32, 122, 32, 125]
@@ -380,5 +405,54 @@ theorem full_statement_refuted : ¬ FullStatement := by
   cases h1
   revert h2
   decide
+
+/-! ### X1 is the ONLY departure: the spec as written for every request that parses -/
+
+/-- the stages after parsing report errors of their own classes (`ValidationError`, `VariableCoercionError`, `CoercionError`,
+    `ResolverError`, …), never a `GraphQLSyntaxError`: a fact about the other stages' exception classes, observed by the
+    correspondence on every request (error kinds are compared) -/
+def StagesTyped (s : Stages) : Prop := ∀ e ∈ s.validate ++ s.coerce ++ s.exec.2, e.isSyntax = false
+
+/-- **response_wellformed_unless_syntax_error.** For every request text that PARSES and every admissible outcome of the later
+    stages (validation errors, no / ambiguous operation, variable coercion errors, execution with field errors) the response
+    satisfies section 7.1 AS WRITTEN (`WellFormed`, column key `"column"`): `FullStatement` restricted to `s.parse = none`
+    holds in full. Together with `response_wellformed_partial` (syntax errors: well-formed up to the key `syntaxColKey`) and
+    `full_statement_refuted`: the misspelt key of syntax-error locations (X1) is the only thing that separates today's code
+    from the full statement. -/
+theorem response_wellformed_unless_syntax_error (text : Text) (s : Stages) (h : StagesOk text s) (ht : StagesTyped s)
+    (hp : s.parse = none) :
+    ∃ j, (processQuery s).response text = some j ∧ WellFormed text j := by
+  have hnosyn : ∀ e ∈ (processQuery s).errors, e.isSyntax = true → "column" = syntaxColKey := by
+    intro e he hs
+    exfalso
+    unfold processQuery abort at he
+    simp only [hp] at he
+    have hmem : e ∈ s.validate ++ s.coerce ++ s.exec.2 ∨ ∃ m, e = .execution m := by
+      by_cases hv : s.validate.isEmpty = true
+      · simp only [hv, Bool.not_true, Bool.false_eq_true, if_false] at he
+        cases hg : s.getOp with
+        | some m => simp [hg] at he; exact .inr ⟨m, he⟩
+        | none =>
+          simp only [hg] at he
+          by_cases hc : s.coerce.isEmpty = true
+          · simp only [hc, Bool.not_true, Bool.false_eq_true, if_false] at he
+            exact .inl (by simp [he])
+          · simp only [hc, Bool.not_false, if_true] at he
+            exact .inl (by simp [he])
+      · simp only [hv, Bool.not_false, if_true] at he
+        exact .inl (by simp [he])
+    rcases hmem with hm | ⟨m, rfl⟩
+    · have := ht e hm
+      rw [this] at hs
+      cases hs
+    · cases hs
+  exact stagesOk_facts text s h (fun h1 h2 h3 h4 => result_wellformed_key "column" text _ h1 hnosyn h2 h3 h4)
+
+/-- non-vacuity: the two-line request whose validation failed (example above) parses and is typed -/
+example : StagesTyped { parse := none, validate := [.located "Cannot query field" [some 7] none], getOp := none, coerce := [], exec := (.null, []) } := by
+  intro e he
+  simp at he
+  subst he
+  rfl
 
 end PyGql.Props.C10
